@@ -24,6 +24,10 @@ claimed = {
    text="Grid over (family, batch size, result size, offset, count, drain mode): limited result compared with the slice of the same engine's unlimited result (tie-aware for ORDER BY; store diff for DELETE). quick samples the grid with forced coincidences; thorough enumerates it completely (exhaustive: true).",
    note="The unlimited result in the same drain mode is the reference; stores are generated so that child batches vary in size.",
    tech="deterministic simulation: chunk-size/drain-mode configuration grid, self-relational slice oracle"),
+ "C18": dict(cat="exploration", ref="§4 C18",
+   text="Trace invariant over the simulated storage's read trace for the canonical key-pinning WHERE shapes (literal on either side), alone, with an opaque conjunct on either side, and in pairs; Get keys inside the pinned set/region, at most one cursor key beyond it per poll and last, nothing below the region start, point reads (no cursor Next) for =/IN, no reads for clauses unsatisfiable on their face. quick samples; thorough enumerates all literal choices per shape over the alphabet {a,b,c}.",
+   note="Closed bounds; one look-ahead key per poll; cursor creation/seek without reads tolerated; union of conjunct regions. The trace is a deterministic function of (statement, store, batch, mode); the simulator contributes the vantage point and generated/history-built stores.",
+   tech="deterministic simulation: invariant monitor over the simulated disk's read trace"),
 }
 BUILT = set(claimed)
 
